@@ -50,39 +50,6 @@ fn probe(real_channel: bool, real_cond: bool) {
 }
 
 // @check props=C30 tier=thorough
-// @desc probe V1
-// @bounds probe
-// @enc probe
-#[kani::proof]
-#[kani::unwind(2)]
-#[kani::stub(critical_section::acquire, super::support_cs::cs_acquire)]
-#[kani::stub(critical_section::release, super::support_cs::cs_release)]
-#[kani::stub(core::task::wake::Waker::wake, super::support_part2::waker_wake_stub)]
-#[kani::stub(core::task::wake::Waker::wake_by_ref, super::support_part2::waker_wake_by_ref_stub)]
-#[kani::stub(<core::task::wake::Waker as core::ops::Drop>::drop, super::support_part2::waker_drop_stub)]
-#[kani::stub(alloc::raw_vec::min_non_zero_cap, super::support_part2::min_non_zero_cap_mailq)]
-fn c30_probe_v1_real() {
-    probe(true, true);
-}
-
-// @check props=C30 tier=thorough
-// @desc probe V2
-// @bounds probe
-// @enc probe
-#[kani::proof]
-#[kani::unwind(2)]
-#[kani::stub(critical_section::acquire, super::support_cs::cs_acquire)]
-#[kani::stub(critical_section::release, super::support_cs::cs_release)]
-#[kani::stub(core::task::wake::Waker::wake, super::support_part2::waker_wake_stub)]
-#[kani::stub(core::task::wake::Waker::wake_by_ref, super::support_part2::waker_wake_by_ref_stub)]
-#[kani::stub(<core::task::wake::Waker as core::ops::Drop>::drop, super::support_part2::waker_drop_stub)]
-#[kani::stub(alloc::raw_vec::min_non_zero_cap, super::support_part2::min_non_zero_cap_mailq)]
-#[kani::stub(crate::dcps::status_condition::DcpsStatusCondition::add_communication_state, super::support_part2::add_state_recorder)]
-fn c30_probe_v2_condstub() {
-    probe(true, false);
-}
-
-// @check props=C30 tier=thorough
 // @desc probe V3
 // @bounds probe
 // @enc probe
@@ -92,6 +59,7 @@ fn c30_probe_v2_condstub() {
 #[kani::stub(critical_section::release, super::support_cs::cs_release)]
 #[kani::stub(crate::dcps::channels::mpsc::MpscSender::send, super::support_part2::mpsc_send_recorder)]
 #[kani::stub(crate::dcps::status_condition::DcpsStatusCondition::add_communication_state, super::support_part2::add_state_recorder)]
+#[kani::stub(<alloc::string::String as core::clone::Clone>::clone, super::support_part2::string_clone_stub)]
 fn c30_probe_v3_bothstub() {
     probe(false, false);
 }
